@@ -94,15 +94,45 @@ class Loader:
                 sys.modules[name] = prev
             else:
                 del sys.modules[name]
+        self._snapshot_containers(mod)
         if "." in name:
             parent, _, child = name.rpartition(".")
             setattr(self.load(parent), child, mod)
         return mod
 
+    def _snapshot_containers(self, mod):
+        """mutable containers a module keeps at module or class level, as they are right after import"""
+        snaps = self.__dict__.setdefault("_containers", [])
+        kinds = (list, dict, set)
+
+        def note(v):
+            if isinstance(v, kinds) and not any(v is c for c, _ in snaps):
+                snaps.append((v, type(v)(v)))
+        for k, v in list(vars(mod).items()):
+            if k.startswith("__"):
+                continue
+            note(v)
+            if isinstance(v, type) and getattr(v, "__module__", None) == mod.__name__:
+                for ak, av in list(vars(v).items()):
+                    if not ak.startswith("__"):
+                        note(av)
+
+    def _restore_containers(self):
+        for c, init in self.__dict__.get("_containers", []):
+            try:
+                if isinstance(c, list):
+                    c[:] = init
+                else:
+                    c.clear()
+                    c.update(init)
+            except Exception:
+                pass
+
     def reset_state(self):
         """called at the start of every execution: memoisation caches that the code under test keeps at module or class
         level are emptied, so that nothing computed on one explored path is served on the next (within one execution they
-        work as written).  Other module-level mutable state would need a reload; the unmodified code has none."""
+        work as written), and lists / dicts / sets kept at module or class level get back the contents they had after import."""
+        self._restore_containers()
         for mod in list(self.registry.values()):
             for obj in list(vars(mod).values()):
                 self._clear(obj)
